@@ -24,8 +24,8 @@ const c05Rule = "complete enumeration, every run, of the matrix schema type {nul
 	"and either returns an error or leaves in F exactly the datum's value; non-trivial = codec built and a value with a non-zero bit pattern decoded next to a canary; distinct by (schema type, Go kind, position, k)"
 
 type c05Case struct {
-	X      ref.Schema    `json:"x"`      // schema of the cell
-	G      spec.TypeSpec `json:"g"`      // Go type of the cell
+	X      ref.Schema    `json:"x"` // schema of the cell
+	G      spec.TypeSpec `json:"g"` // Go type of the cell
 	GoType string        `json:"go_type"`
 	Pos    string        `json:"pos"` // field, ptr, ptrptr, elem, mapval
 	K      int           `json:"k"`
@@ -387,7 +387,7 @@ func TestC05(t *testing.T) {
 					}
 					col.Record(struct {
 						X, G, Pos string
-						K    int
+						K         int
 					}{ref.Render(x, nil), g.GoString(), pos, k}, nt, labels...)
 					col.LabelN("decodes_ok", int64(res.Decoded))
 					col.LabelN("decodes_rejected", int64(res.Rejected))
